@@ -38,6 +38,11 @@ def findMap (key : Str) : List (Str × List Word) → Option (List Word)
   | [] => none
   | (k, ws) :: t => if beqStr k key then some ws else findMap key t
 
+/-- `map.entry(key).or_insert(vec![]).push(w)` on a map with unique keys (insertion order kept). -/
+def addToMap : List (Str × List Word) → Str → Word → List (Str × List Word)
+  | [], key, w => [(key, [w])]
+  | (k, v) :: t, key, w => if beqStr k key then (k, v ++ [w]) :: t else (k, v) :: addToMap t key w
+
 /-- `trie.search(&key).and_then(|_| map.get(&key))` -/
 def lookup (trie : List Str) (map : List (Str × List Word)) (key : Str) : List Word :=
   if trie.any (beqStr key) then (findMap key map).getD [] else []
